@@ -29,7 +29,9 @@ EXPLANATION = (
     ' '
     "R-C13.6 second clause: every entry of the connector tables spells its connector the way django's Combinable produces it (operator of the non-reflected dunder or the method name, read from the installed Django source)."
     ' '
-    'R-C13.8 the hint text reaches stdout / the evolution file with nothing but whitespace trimming applied.')
+    'R-C13.8 the hint text reaches stdout / the evolution file with nothing but whitespace trimming applied.'
+    ' '
+    'R-C13.9 Diff.evolution and ModelMutator.change_meta build the per-index dictionaries (compared by repr in the backend) in the same key order.')
 NOT_DECIDED = (
     'Semantic equality of the re-loaded mutations (same signature change, '
     'same SQL) for all values; validity of the rendered Python for every '
@@ -729,7 +731,144 @@ def r8_hint_text_reaches_output_verbatim(ctx):
     ctx.floor('sinks of the hint text in the evolve command', n_sinks, 2)
 
 
+def _order_of_expr(e):
+    """Key order of a dictionary-valued expression (None when unknown)."""
+    if isinstance(e, ast.Dict):
+        out = []
+        for k, v in zip(e.keys, e.values):
+            if k is None:
+                sub = _order_of_expr(v)
+                if sub is None:
+                    return None
+                out += sub
+            else:
+                out.append(const_str(k))
+        return out
+    if isinstance(e, ast.DictComp) and len(e.generators) == 1 and \
+            isinstance(e.generators[0].iter, (ast.Tuple, ast.List)):
+        out = []
+        for pair in e.generators[0].iter.elts:
+            if isinstance(pair, (ast.Tuple, ast.List)) and pair.elts and \
+                    const_str(pair.elts[0]):
+                out.append(const_str(pair.elts[0]))
+            else:
+                return None
+        return out
+    if isinstance(e, ast.Call) and call_name(e) == 'copy' and \
+            'attrs' in unparse(e):
+        return ['<attrs>']
+    if isinstance(e, (ast.Attribute, ast.Name)) and 'attrs' in unparse(e):
+        return ['<attrs>']
+    if isinstance(e, ast.Call) and call_name(e) in ('dict', 'OrderedDict'):
+        out = []
+        for a in e.args:
+            sub = _order_of_expr(a)
+            if sub is None:
+                return None
+            out += sub
+        for k in e.keywords:
+            if k.arg is None:
+                sub = _order_of_expr(k.value)
+                if sub is None:
+                    return None
+                out += sub
+            else:
+                out.append(k.arg)
+        return out
+    return None
+
+
+def _index_dict_order(fn_node):
+    """Key insertion order of the per-index dictionary built in a loop over
+    `*.index_sigs`: '<attrs>' for the copied attrs, constants for the
+    explicit keys."""
+    for comp in ast.walk(fn_node):
+        if isinstance(comp, (ast.ListComp, ast.GeneratorExp)) and any(
+                'index_sigs' in unparse(g.iter) for g in comp.generators):
+            order = _order_of_expr(comp.elt)
+            if order is not None:
+                return order, comp
+    for loop in ast.walk(fn_node):
+        if not (isinstance(loop, ast.For) and
+                'index_sigs' in unparse(loop.iter)):
+            continue
+        order, name = [], None
+        for st in loop.body:
+            if isinstance(st, ast.Assign) and len(st.targets) == 1 and \
+                    isinstance(st.targets[0], ast.Name):
+                v = st.value
+                if isinstance(v, ast.Call) and call_name(v) == 'copy' and \
+                        'attrs' in unparse(v):
+                    name, order = st.targets[0].id, ['<attrs>']
+                elif isinstance(v, ast.Call) and call_name(v) in (
+                        'dict', 'OrderedDict'):
+                    name, order = st.targets[0].id, []
+                    for a in v.args:
+                        if isinstance(a, ast.Dict):
+                            order += [const_str(k) for k in a.keys
+                                      if k is not None]
+                        elif 'attrs' in unparse(a):
+                            order.append('<attrs>')
+                    for k in v.keywords:
+                        if k.arg is None and 'attrs' in unparse(k.value):
+                            order.append('<attrs>')
+                        elif k.arg:
+                            order.append(k.arg)
+                elif isinstance(v, ast.Dict):
+                    name = st.targets[0].id
+                    order = [const_str(k) if k is not None else '<attrs>'
+                             for k in v.keys]
+            for x in ast.walk(st):
+                if isinstance(x, ast.Assign):
+                    for t in x.targets:
+                        if isinstance(t, ast.Subscript) and \
+                                isinstance(t.value, ast.Name) and \
+                                t.value.id == name and const_str(t.slice) \
+                                and const_str(t.slice) not in order:
+                            order.append(const_str(t.slice))
+                if isinstance(x, ast.Call) and call_name(x) == 'update' and \
+                        isinstance(x.func, ast.Attribute) and \
+                        isinstance(x.func.value, ast.Name) and \
+                        x.func.value.id == name and 'attrs' in unparse(x) \
+                        and '<attrs>' not in order:
+                    order.append('<attrs>')
+        if name:
+            return order, loop
+    return None, None
+
+
+def r9_index_dict_producers_agree(ctx):
+    """change_meta_indexes() decides which indexes to drop / create by
+    comparing repr() of the per-index dictionaries of the old value (built
+    by ModelMutator.change_meta from the signature) and of the mutation's new
+    value.  The hinted mutation's dictionaries are built by Diff.evolution():
+    both producers must insert their keys in the same order, otherwise every
+    untouched named index looks changed to the hinted mutation (DROP + CREATE)
+    but not to the same mutation loaded from its hint text."""
+    ctx.rule('R-C13.9')
+    p = ctx.program
+    a = p.func('diff', 'Diff.evolution')
+    b = p.func('mutators.model_mutator', 'ModelMutator.change_meta')
+    oa, la = _index_dict_order(a.node)
+    ob, lb = _index_dict_order(b.node)
+    if oa is None or ob is None:
+        raise AnalysisError('R-C13.9: the per-index dictionary producers were '
+                            'not recognised')
+    ctx.counts['R-C13.9 keys of the per-index dictionaries'] = len(oa)
+    if oa == ob:
+        ctx.ok(a, 'Diff.evolution and ModelMutator.change_meta build the '
+               'per-index dictionaries in the same key order %s' % oa, la)
+    else:
+        ctx.finding(a, la, 'Diff.evolution builds the per-index dictionary '
+                    'in the order %s, ModelMutator.change_meta in the order '
+                    '%s: their repr() differ for identical indexes, so the '
+                    'hinted ChangeMeta drops and re-creates untouched '
+                    'indexes while the mutation loaded from the hint text '
+                    'does not' % (oa, ob), key='index-dict-order-differs')
+
+
 def run(ctx):
+    r9_index_dict_producers_agree(ctx)
     r8_hint_text_reaches_output_verbatim(ctx)
     r1_import_closure(ctx)
     r2_q_total(ctx)
